@@ -600,6 +600,12 @@ fn step(cx: &Ctx, root: usize, ops: &[Op], h: &[usize]) -> Option<(Vec<u8>, u64)
 fn main() {
     let run = Run::new("C12", "model_checking");
     quiet_panics();
+    // hang breaker: a subject call that never returns (e.g. a self-deadlock) would block the search outside any budget check
+    let hard_limit = run.tier.pick(170, 2700);
+    std::thread::spawn(move || {
+        std::thread::sleep(Duration::from_secs(hard_limit));
+        machinery_exit(&format!("C12: no result after {hard_limit} s — a call into the subject did not return (deadlock?)"));
+    });
     let distinct = Distinct::default();
     let root_dir = PathBuf::from(format!("/dev/shm/vh-c12-{}", std::process::id()));
     let _ = std::fs::remove_dir_all(&root_dir);
